@@ -14,8 +14,10 @@ LEVEL_TEXT = ("For all versions 0..7 and all argument values: the backend call c
               "uid/gid dropped below version 3, Rename/Remove as RenameAt/UnlinkAt on the parent, walk per component, Readdir count clamped); only message types the "
               "version defines; ExtractErrno through any wrapping depth (induction); SetXattr/RemoveXattr local ENOSYS. Every run regenerates the table from the source, "
               "re-checks the proofs, and compares backend call logs, returned values and errnos of 20 methods x 8 versions x generated arguments/answers with the model.")
-LEVEL_NOTE = ("Partial: composed methods (WalkGetAttr below version 2, GetXattr/ListXattrs, ReadAt/WriteAt=C11) are tied as source text only; the handler table "
-              "(Client/ClientModel.v handler_calls) is hand-written and tied by the differential only; result values are compared as rendered text. "
+LEVEL_NOTE = ("Composed methods (GetXattr/ListXattrs, WalkGetAttr below version 2) are modelled as functions (Client/Composed.v) with theorems; their tie to the source is the "
+              "statement text in the reviewed table. The handler table is proved equal to the interpretation of HandlerGen's backend-call events for 22 T-messages + Tremove/Tclunk; "
+              "the handlers of Twalk/Twalkgetattr/Txattrwalk/Tattach are hand-modelled and tied by the differential only. Result values are compared field by field. "
+              "ExtractErrno theorems are stated for chains whose syscall.Errno values are non-zero (errno 0 is not an error value; the model reproduces what the code does with it). "
               "Trusted: Coq kernel + vm_compute, go2coq ClientGen, Go's errors.Is/As semantics as modelled by Errs.find.")
 DESIGN_REF = "6/C03"
 ASSUMPTIONS = [
@@ -104,7 +106,7 @@ def to_case(o):
     return "COp %s %d (mkenv (%s) %d 0 (%s) %d) %s (%s) [%s] %s %s %s %s" % (
         coq_string(o["op"]), o["version"], params, o["fid"], pfid, o["msize"], coq_bool(o["fail"]),
         errv(o["answer"]) if o.get("answer") else "Opaque", calls, err, conn,
-        bstr(list((o.get("ret") or "").encode("utf-8", "surrogateescape"))), bstr(list((o.get("ans") or "").encode("utf-8", "surrogateescape"))))
+        "[" + "; ".join(val(x) for x in (o.get("ret") or [])) + "]", "[" + "; ".join(val(x) for x in (o.get("ans") or [])) + "]")
 
 
 HEADER = ("From Coq Require Import NArith String List.\nFrom P9V Require Import Base.Str gen.ClientGen Client.Chunk Client.ClientModel Client.Errs Client.Composed Client.ClientCases.\n"
